@@ -139,6 +139,9 @@ func New(opts ...Option) *Server {
 		},
 	}
 
+	// secure channels are opened only with the security settings of the endpoints
+	s.cb.securityAllowed = s.securityAllowed
+
 	// init server address space
 	//for _, n := range PredefinedNodes() {
 	//s.namespaces[0].AddNode(n)
@@ -263,6 +266,7 @@ func (s *Server) Start(ctx context.Context) error {
 
 	if s.cb == nil {
 		s.cb = newChannelBroker(s.cfg.logger)
+		s.cb.securityAllowed = s.securityAllowed
 	}
 
 	go s.acceptAndRegister(ctx, s.l)
@@ -367,6 +371,26 @@ func (s *Server) monitorConnections(ctx context.Context) {
 		// todo: should this be delegated to another goroutine in case handling this hangs?
 		s.handleService(ctx, sc, msg.RequestID, msg.Request())
 	}
+}
+
+// securityAllowed reports whether a secure channel may be opened with the
+// security policy and mode. These are the pairs registered with EnableSecurity,
+// which are also the ones initEndpoints advertises.
+func (s *Server) securityAllowed(policyURI string, mode ua.MessageSecurityMode) error {
+	policyEnabled := false
+	for _, sec := range s.cfg.enabledSec {
+		if sec.secPolicy != policyURI {
+			continue
+		}
+		if sec.secMode == mode {
+			return nil
+		}
+		policyEnabled = true
+	}
+	if policyEnabled {
+		return ua.StatusBadSecurityModeRejected
+	}
+	return ua.StatusBadSecurityPolicyRejected
 }
 
 // initEndpoints builds the endpoint list from the server's configuration
